@@ -16,7 +16,7 @@ FINDING_DEV = {
     "KF-C13-05": "Epub!CellInlineSpaced",
 }
 
-TABLE_FORMATS = {"docx", "odt", "html", "mhtml", "epub", "rtf", "pptx", "odp", "xlsx", "ods"}
+TABLE_FORMATS = {"docx", "odt", "html", "mhtml", "epub", "rtf", "pptx", "odp", "xlsx", "ods", "xls"}
 
 
 def _events(j, o):
@@ -58,6 +58,8 @@ def _typed_job(job):
     row = [TYPED_CELL[k] for k in kinds]
     if fmt == "ods":
         row = [None if (c and c[0] in ("e", "f")) else c for c in row]
+    if fmt == "xls":      # the BIFF writer has no date formats / formulas
+        row = [None if (c and c[0] in ("d", "date", "t", "f")) else c for c in row]
     book = {"kind": "book", "sheets": [{"name": "T", "rows": [[["s", 1], ["s", 2]], row]}]}
     try:
         r = next(getattr(sharepoint2text, EXTRACTOR[fmt])(io.BytesIO(render(book, fmt)), "t." + fmt))
@@ -79,8 +81,9 @@ def typed_values(ctx):
     jobs = []
     for u in rows:
         kinds = [str(k) for k in u[0]]
-        for fmt in ("xlsx", "ods"):
-            eff = ["empty" if (fmt == "ods" and k in ("e", "f")) else k for k in kinds]
+        for fmt in ("xlsx", "ods", "xls"):
+            eff = ["empty" if ((fmt == "ods" and k in ("e", "f")) or (fmt == "xls" and k in ("d", "date", "t", "f"))) else k
+                   for k in kinds]
             jobs.append((kinds, fmt, eff))
     with ProcessPoolExecutor(16) as ex:
         obs = list(ex.map(_typed_job, [(k, f) for k, f, _ in jobs]))
